@@ -5460,6 +5460,11 @@ class RemoteBranch(branch.Branch, _RpcHelper, lock._RelockDebugMixin):
         except transport_errors.UnknownSmartMethod:
             medium._remember_remote_is_before((1, 18))
             self._vfs_set_tags_bytes(bytes)
+        else:
+            if self._real_branch is not None:
+                # The real branch caches the tags it last read or wrote while
+                # it is locked, and it has not seen this write.
+                self._real_branch._tags_bytes = None
 
     def lock_read(self):
         """Lock the branch for read operations.
